@@ -347,14 +347,15 @@ def model_script(script: dict[str, Any]) -> dict[str, Any]:
         if "fault" in s:
             return {"fault": s["fault"]}
         o: dict[str, Any] = {"status": s["status"]}
+        # the HTTP parser hands header values over without their optional surrounding whitespace (SP / HTAB)
         for k in ("location", "cl", "ar", "ce"):
             if s.get(k) is not None:
-                o[k] = s2j(s[k])
+                o[k] = s2j(s[k].strip(" \t"))
         cr = s.get("cr")
         if isinstance(cr, dict):
-            o["cr"] = {"auto": s2j(cr["auto"])}
+            o["cr"] = {"auto": s2j(cr["auto"].rstrip(" \t"))}
         elif cr is not None:
-            o["cr"] = s2j(cr)
+            o["cr"] = s2j(cr.strip(" \t"))
         if s["status"] in (204, 304):
             o["body"] = {"k": "fixed", "hex": ""}
         elif s.get("body") is not None:
